@@ -61,14 +61,22 @@ def valid_cases(draw):
         for _ in range(draw(st.integers(1, 3))):
             hs = draw(schedules(max_n=3, renderings=("list",)))
             hist["runs"].append({"sched": hs, "non_destructive": draw(st.booleans()), "plan": draw(write_plans(len(hs["times"])))})
+    entry = draw(st.sampled_from(["run_mode", "run_mode", "run_mode", "legacy"]))  # legacy = pyxel.exposure_mode (its own readout loop)
+    plan = draw(write_plans(n))
+    if entry == "legacy":
+        # the older entry point assembles its result from pixel / signal / image / charge of every step: keep to those, written at every step
+        # (what it does with other buckets or with steps that leave a bucket unset is its result assembly, not the clock of this property)
+        plan = {b: {"dtype": "uint16" if b == "image" else "float64", "values": [draw(st.integers(1, 200)) for _ in range(n)]}
+                for b in ["pixel", "signal", "image"] + draw(st.lists(st.sampled_from(["charge"]), max_size=1))}
     return {
         "sched": s,
         "non_destructive": draw(st.booleans()),
         "det_type": draw(st.sampled_from(["CCD", "CMOS", "MKID", "APD"])),
         "shape": [draw(st.integers(1, 4)), draw(st.integers(1, 4))],
-        "plan": draw(write_plans(n)),
+        "plan": plan,
         "history": hist,
         "yaml": draw(st.booleans()),
+        "entry": entry,
     }
 
 
@@ -159,9 +167,10 @@ def body_valid(case, rec):
     P.reset()
     result = None
     with rec.must_not_raise("valid_schedule_refused"):
-        result = pyx.run(cfg, with_inherited_coords=True)
+        result = pyx.run(cfg, with_inherited_coords=True, entry=case.get("entry", "run_mode"))
     if result is None:
         return
+    rec.cls(f"entry:{case.get('entry', 'run_mode')}")
     snaps = list(P.SNAPS)
     firsts = [x for x in snaps if x["where"] == "first"]
     lasts = [x for x in snaps if x["where"] == "last"]
